@@ -263,7 +263,9 @@ CHECKS = {
             "with its invariant, everything it held byte for byte and new nodes only; the source is only read; and for EVERY depth n "
             "the copy is indistinguishable from the source by reads along paths of n references: equal scalars, nulls, classes - "
             "by induction over the recursion, whenever it ends; a cycle never ends, as in the library), "
-            "C09_copy_into_other_buffer_stable (that stays so in every later state that keeps the bytes of the nodes created). "
+            "C09_copy_into_other_buffer_stable (that stays so in every later state that keeps the bytes of the nodes created), "
+            "C09_acyclic_source_is_copied (the copy of a source whose reference chains are shorter than n ends with fuel n, for any "
+            "consistent destination: `none` hides nothing but cycles). "
             "The model `xcopy` is executed against the library by the rg stream (xcopy / xback operations between two buffers of "
             "different kinds, capacities, alignments).",
             "Partial: copies of arrays / dynamic structs holding references (into the same or another buffer): executable heap model "
